@@ -1,0 +1,77 @@
+//go:build verif
+
+// Contracts for package roman, read by /verif/govc (never compiled into normal builds).
+// Properties: C02, C10 and roman's share of C16, C17, C18.
+
+package roman
+
+//@ config MaxInputLength
+//@ domain MaxInputLength >= 0
+//@ config DefaultFormat
+//@ config Formatter = DefaultFormatter
+//@ config Parser = DefaultParser[[]byte]
+//@ constvar hundreds tens units groups
+
+//@ pure func withinLimit(n int) bool = MaxInputLength == 0 || n <= MaxInputLength
+
+// ---- the statement of C10 as specification functions ---------------------------------------------------------
+// A symbol in either letter case.
+//@ pure func isSym(c byte, s byte) bool = c == s || c == s+32
+// The three digit groups, written from the statement: additive (optional five-symbol, up to four one-symbols)
+// or subtractive (the four form, the nine form), case-insensitively.
+//@ regex grpH = "(?i)D?C{0,4}|CD|CM"
+//@ regex grpT = "(?i)L?X{0,4}|XL|XC"
+//@ regex grpU = "(?i)V?I{0,4}|IV|IX"
+//@ pure func ones(w bytes, one byte) int = sum i in 0..5 :: ite(i < len(w) && isSym(w[i], one), 1, 0)
+//@ pure func gval(w bytes, one byte, five byte, ten byte) int = ite(len(w) == 2 && isSym(w[0], one) && isSym(w[1], five), 4,
+//@     ite(len(w) == 2 && isSym(w[0], one) && isSym(w[1], ten), 9, ite(len(w) > 0 && isSym(w[0], five), 5, 0) + ones(w, one)))
+//@ pure func oneOf(digit5 byte) byte = ite(digit5 == 'D', 'C', ite(digit5 == 'L', 'X', 'I'))
+
+//@ func parseGroup
+//@   requires (digit5 == 'D' && digit10 == 'M' && inre(grpH, input)) || (digit5 == 'L' && digit10 == 'C' && inre(grpT, input)) || (digit5 == 'V' && digit10 == 'X' && inre(grpU, input))
+//@   requires unit == 1 || unit == 10 || unit == 100
+//@   ensures [C10.gval] int(decimal) == gval(input, oneOf(digit5), digit5, digit10) * int(unit)
+//@   split digit5 == 'D'
+//@   split digit5 == 'L'
+
+//@ func checkInputLength
+//@   ensures [C10.accept C18.limit] err == nil <==> (len(input) == 0 && r&RuleDisableEmptyAsZero == 0) || (len(input) > 0 && withinLimit(len(input)))
+//@   ensures [C10.accept] empty <==> (len(input) == 0 && r&RuleDisableEmptyAsZero == 0)
+//@   ensures [C10.zero] err != nil ==> errAs(err, *NumberFormatError)
+//@   ensures [C18.limit] len(input) > 0 && !withinLimit(len(input)) ==> errIs(err, ErrInputTooLong) && errData(err, "inputLen") == 0
+//@   ensures [C18.limit] errIs(err, ErrInputTooLong) ==> len(input) > 0 && !withinLimit(len(input))
+
+//@ func newNumberFormatError
+//@   inline
+
+// The value of an accepted text, from the statement: 1000 for every leading M, plus the values of the hundreds,
+// tens and units groups. The groups are cut by their alphabets (a hundreds group uses only C, D, M; a tens group
+// only X, L, C; a units group only I, V, X), which is unambiguous for every text of the language.
+//@ pure func inSet3(c byte, a byte, b byte, d byte) bool = isSym(c, a) || isSym(c, b) || isSym(c, d)
+//@ pure func run(w bytes, k int, a byte, b byte, d byte) int = ite(!(k < len(w) && inSet3(w[k], a, b, d)), 0, ite(!(k+1 < len(w) && inSet3(w[k+1], a, b, d)), 1,
+//@     ite(!(k+2 < len(w) && inSet3(w[k+2], a, b, d)), 2, ite(!(k+3 < len(w) && inSet3(w[k+3], a, b, d)), 3, ite(!(k+4 < len(w) && inSet3(w[k+4], a, b, d)), 4, 5)))))
+//@ pure func hStart(w bytes) int = leadRun(w, 'M', 'm')
+//@ pure func tStart(w bytes) int = hStart(w) + run(w, hStart(w), 'C', 'D', 'M')
+//@ pure func uStart(w bytes) int = tStart(w) + run(w, tStart(w), 'X', 'L', 'C')
+//@ pure func romanValue(w bytes) int = 1000*hStart(w) + 100*gval(w[hStart(w):tStart(w)], 'C', 'D', 'M') + 10*gval(w[tStart(w):uStart(w)], 'X', 'L', 'C') + gval(w[uStart(w):len(w)], 'I', 'V', 'X')
+
+//@ func DefaultParser
+//@   ensures [C10.accept] err == nil <==> (len(input) == 0 && r&RuleDisableEmptyAsZero == 0) || (len(input) > 0 && withinLimit(len(input)) && in(pattern, input))
+//@   ensures [C10.value] err == nil && len(input) > 0 ==> int(r0) == romanValue(input)
+//@   ensures [C10.value] err == nil && len(input) == 0 ==> r0 == 0
+//@   ensures [C10.zero C17.zero] err != nil ==> r0 == 0 && errAs(err, *NumberFormatError)
+//@   ensures [C18.limit] len(input) > 0 && !withinLimit(len(input)) ==> errIs(err, ErrInputTooLong) && errData(err, "inputLen") == 0
+//@   ensures [C18.limit] errIs(err, ErrInputTooLong) ==> len(input) > 0 && !withinLimit(len(input))
+//@   loop 0 unroll 3
+
+//@ func Valid
+//@   ensures [C10.valid] result == nil <==> (len(input) == 0 && r&RuleDisableEmptyAsZero == 0) || (len(input) > 0 && withinLimit(len(input)) && in(pattern, input))
+//@   ensures [C10.zero] result != nil ==> errAs(result, *NumberFormatError)
+
+//@ func (*Number).UnmarshalText
+//@   ensures [C17.recv] err != nil ==> *n == old(*n)
+//@   ensures [C10.accept] err == nil <==> len(data) == 0 || (withinLimit(len(data)) && in(pattern, data))
+//@   ensures [C10.value] err == nil && len(data) > 0 ==> int(*n) == romanValue(data)
+//@   assigns *n
+
+var _ = []any{DefaultParser[string], DefaultParser[[]byte], Valid[string], Valid[[]byte], checkInputLength[string], checkInputLength[[]byte]}
